@@ -1,10 +1,12 @@
 import Qv.Drv.C14
+import Qv.Drv.C15
 /-! Line protocol: `<op> <json>` per line in, one JSON document per line out. -/
 open Lean
 
 def handlers : List (String × (Json → Except String Json)) := [
   ("C14.pmap", Qv.Drv.C14.pmap),
-  ("C14.serial", Qv.Drv.C14.serial)
+  ("C14.serial", Qv.Drv.C14.serial),
+  ("C15.history", Qv.Drv.C15.history)
 ]
 
 def handle (line : String) : String :=
